@@ -524,6 +524,7 @@ func (d *Driver) exec(st *Step, g string) {
 			})),
 			iscp.WithUpstreamResumedEventHandler(iscp.UpstreamResumedEventHandlerFunc(func(ev *iscp.UpstreamResumedEvent) {
 				d.rec.Log("UpResumed", "sid", d.b.SidOf(ev.ID))
+				d.b.HandlerHold("UpResumed")
 			})),
 			iscp.WithUpstreamClosedEventHandler(iscp.UpstreamClosedEventHandlerFunc(func(ev *iscp.UpstreamClosedEvent) {
 				d.rec.Log("UpClosed", "obj", obj, "sid", d.sid(obj), "err", ErrClass(ev.Err), "total", int(ev.State.TotalDataPoints), "lastSeq", int(ev.State.LastIssuedSequenceNumber))
@@ -635,6 +636,7 @@ func (d *Driver) exec(st *Step, g string) {
 			iscp.WithDownstreamQoS(qosOf(st.QoS)),
 			iscp.WithDownstreamResumedEventHandler(iscp.DownstreamResumedEventHandlerFunc(func(ev *iscp.DownstreamResumedEvent) {
 				d.rec.Log("DownResumed", "sid", d.b.SidOf(ev.ID))
+				d.b.HandlerHold("DownResumed")
 			})),
 			iscp.WithDownstreamClosedEventHandler(iscp.DownstreamClosedEventHandlerFunc(func(ev *iscp.DownstreamClosedEvent) {
 				d.rec.Log("DownClosed", "obj", obj, "sid", d.sid(obj), "err", ErrClass(ev.Err))
